@@ -8,7 +8,7 @@ import (
 
 func TestMain(m *testing.M) {
 	ev.Main(m, "C17", "exploration",
-		"drawn limits.NewIMAPLimits(maxMailboxes 2-8, maxMessages 0-8, maxUID 1-14, maxUIDValidity huge | below every value the epoch generator can hand out (switched in by a restart after the prefill) | 3-14 with an incremental generator) and a rapid state machine that approaches the limits from below: APPEND, COPY/MOVE of 1-6 messages sized around the free slots / free UIDs of the destination, CREATE of a name needing 1-4 new levels sized around the free mailbox slots, connector MailboxCreated, MessagesCreated batches (1-6 messages into 1-2 mailboxes) and MessageMailboxesUpdated, plus EXPUNGE and DELETE to make room again; concurrent rounds: 2-6 sessions (and optionally the connector) issue the same limit-approaching command at once under the real scheduler, then a barrier. Oracle after every step, from a fresh session's view of every mailbox row (incl. the hidden recovery mailbox), LIST and the server's own accounting read through VerifDBRead (GetMailboxCount, GetMailboxMessageCountAndUID): rows <= maxMailboxes, messages per mailbox <= maxMessages, every UID <= maxUID-1 and UIDNEXT <= maxUID (CheckUIDCount bounds the next UID), UIDVALIDITY < maxUIDValidity for mailboxes created under the limit; a refused operation (NO / update acknowledged with an error) leaves every mailbox, the namespace and the connector's remote model exactly as observed before (APPEND: except the recovery mailbox, where gluon parks the refused message); an operation that fits (resulting counts <= max, highest UID <= maxUID-1, next UIDVALIDITY < max) is accepted and has exactly the expected effect (positions, UIDs, markers). Non-trivial: a case containing an operation whose size exceeds the remaining room by less than its own size (0 < overflow < size: it would cross a limit part-way; for concurrent rounds: 0 < room < total size of the round); distinct by hash of the configuration and operation sequence.",
+		"drawn limits.NewIMAPLimits(maxMailboxes 2-8, maxMessages 0-8, maxUID 1-14, maxUIDValidity huge | below every value the epoch generator can hand out (switched in by a restart after the prefill) | 3-14 with an incremental generator) and a rapid state machine that approaches the limits from below: APPEND, COPY/MOVE of 1-6 messages sized around the free slots / free UIDs of the destination, CREATE of a name needing 1-4 new levels sized around the free mailbox slots, connector MailboxCreated, MessagesCreated batches (1-6 messages into 1-2 mailboxes) and MessageMailboxesUpdated, plus EXPUNGE and DELETE to make room again; concurrent rounds: 2-6 sessions (and optionally the connector: a MessagesCreated batch next to the APPENDs, MailboxCreated announcements next to the CREATEs) issue the same limit-approaching command at once under the real scheduler, then a barrier. Oracle after every step, from a fresh session's view of every mailbox row (incl. the hidden recovery mailbox), LIST and the server's own accounting read through VerifDBRead (GetMailboxCount, GetMailboxMessageCountAndUID): rows <= maxMailboxes, messages per mailbox <= maxMessages, every UID <= maxUID-1 and UIDNEXT <= maxUID (CheckUIDCount bounds the next UID), UIDVALIDITY < maxUIDValidity for mailboxes created under the limit; a refused operation (NO / update acknowledged with an error) leaves every mailbox, the namespace and the connector's remote model exactly as observed before (APPEND: except the recovery mailbox, where gluon parks the refused message); an operation that fits (resulting counts <= max, highest UID <= maxUID-1, next UIDVALIDITY < max) is accepted and has exactly the expected effect (positions, UIDs, markers). Non-trivial: a case containing an operation whose size exceeds the remaining room by less than its own size (0 < overflow < size: it would cross a limit part-way; for concurrent rounds: 0 < room < total size of the round); distinct by hash of the configuration and operation sequence.",
 		"message identity through the X-Verif-Marker header",
 		"silent connector echo: the remote model changes only through gluon's connector calls and the harness' own updates",
 		"concurrent rounds are schedule dependent (sampled, not shrinkable); their oracle uses monotonicity of the round (a refused operation must still not fit in the final state)")
